@@ -8,6 +8,7 @@ import (
 	"fmt"
 	"hash/fnv"
 	"os"
+	"sort"
 	"strconv"
 	"strings"
 	"testing"
@@ -145,6 +146,11 @@ func TestWorker(t *testing.T) {
 		stateF, _ = os.OpenFile(sp, os.O_CREATE|os.O_WRONLY, 0o644)
 	}
 
+	var digestF *os.File
+	if dp := os.Getenv("VERIF_DIGEST_OUT"); dp != "" {
+		digestF, _ = os.OpenFile(dp, os.O_CREATE|os.O_WRONLY|os.O_TRUNC, 0o644)
+		defer digestF.Close()
+	}
 	start := time.Now()
 	sum := &summary{Type: "summary", Worker: worker, Stats: map[string]int64{}, Known: map[string]int64{}, FirstIdx: worker}
 	fps := map[uint64]struct{}{}
@@ -173,6 +179,12 @@ func TestWorker(t *testing.T) {
 		res := kernel.Exec(t, sp, p.Engine)
 		sum.Runs++
 		sum.LastIdx = idx
+		if digestF != nil {
+			fmt.Fprintf(digestF, "%d %016x\n", idx, digestOf(res))
+			if os.Getenv("VERIF_DIGEST_DEBUG") != "" {
+				fmt.Fprintf(digestF, "  tape=%v\n  sched=%x steps=%d fps=%v\n  stats=%v\n  viol=%+v sim=%.9f\n", res.Tape, res.SchedHash, res.Steps, res.FPs, res.Stats, res.Violation, res.SimSec)
+			}
+		}
 		if res.Discarded {
 			sum.Discarded++
 		}
@@ -245,6 +257,26 @@ func TestWorker(t *testing.T) {
 	sum.States, sum.StateTotal = dumpSet(states), len(states)
 	sum.WallS = time.Since(start).Seconds()
 	emit(sum)
+}
+
+// digestOf is the canonical digest of one run used by the determinism self-test:
+// every tape choice, the schedule hash, all counters, fingerprints and the verdict.
+func digestOf(res *kernel.Result) uint64 {
+	h := fnv.New64a()
+	fmt.Fprint(h, res.Tape, res.SchedHash, res.Steps, res.FPs, res.StateFPs, res.Discarded, res.Harness)
+	keys := make([]string, 0, len(res.Stats))
+	for k := range res.Stats {
+		keys = append(keys, k)
+	}
+	sort.Strings(keys)
+	for _, k := range keys {
+		fmt.Fprint(h, k, res.Stats[k])
+	}
+	if res.Violation != nil {
+		fmt.Fprint(h, res.Violation.Signature, res.Violation.Detail)
+	}
+	fmt.Fprintf(h, "%.9f", res.SimSec)
+	return h.Sum64()
 }
 
 type replayFile struct {
